@@ -55,7 +55,7 @@ func (k kind) isConst() bool { return k >= cPrec && k != cJSONPath }
 // constant pools per kind; the first entries are the "good" ones (the matrix
 // enumeration uses index 0 and 1).
 var pools = map[kind][]string{
-	kAny:        {"abc", "42", "", "x y", "Hello", "3.5", "a,b", "été", "-7", "0"},
+	kAny:        {"abc", "42", "", "x y", "Hello", "3.5", "a,b", "été", "-7", "0", "x  y"},
 	kInt:        {"42", "-3", "0", "1", "7", "100", "1000", "65536", "2147483648", "9223372036854775807", "-9223372036854775808", "abc", "", "1.5", "+5", "12"},
 	kSmall:      {"3", "0", "1", "2", "5", "8", "12"},
 	kFloat:      {"2.5", "-1.25", "0", "1", "100", "0.001", "1e3", "3.0", "abc", "", "1e400", "NaN"},
